@@ -16,7 +16,7 @@ RULE = ('histories of 8-40 operations over a growing table of related stream obj
         'reset between three packages of which two share the Chemicals object and differ only in their property functions); '
         'one case in eight is scripted: either material moved between the phases of a MultiStream (directly or through its '
         'phase views) at constant T, P and bit-identical overall composition, or a switch between the two packages sharing '
-        'their Chemicals, each with the same properties read before and after; the property package is a stub Mixture whose values are an injective affine dyadic function of '
+        'their Chemicals, each with the same properties read before and after; the property package is a stub Mixture whose values are an affine dyadic function, with phase-dependent composition weights, of '
         '(package, name, phase, composition, T, P), so a stale value is always visible; executed on the real classes and on '
         'the Coq model; every read value, every raised exception class, the index of every returned object, and a final '
         'snapshot of every object (class, phases, flows, T, P, memo contents, which objects share memo dict / key / '
@@ -63,7 +63,8 @@ def env():
             z = z.to_array() if hasattr(z, 'to_array') else np.asarray(z, float)
             a = A[self.pkg]
             return W[name] * (3. * (name + 1) + 7. * self.pkg + (5. * (PH[phase] + 1) if phase is not None else 0.)
-                              + float(a[0] * z[0] + a[1] * z[1] + a[2] * z[2]) + T / 64. + P / 16384.)
+                              + (1. + (PH[phase] + 1) / 2. if phase is not None else 1.) * float(a[0] * z[0] + a[1] * z[1] + a[2] * z[2])
+                              + T / 64. + P / 16384.)
         def H(self, phase, mol, T, P): return self._calc(0, phase, mol, T, P)
         def S(self, phase, mol, T, P): return self._calc(1, phase, mol, T, P)
         def Cn(self, phase, mol, T, P=None): return self._calc(2, phase, mol, T, P)
